@@ -10,13 +10,13 @@ var c02Shapes = []string{
 	"find all 'a' = x",
 	"find all ('a' = x 'b') or ('a' 'c')",
 	"find all ('a' = x 'b') or ('a' = y 'c')",
-	"find all ('a' 'b') = x or ('a' 'c') = y",
+	"find all (('a' 'b') = x) or (('a' 'c') = y)",
 	"find all 'a' = x ('b' = y 'c' or 'b' 'd')",
 	"find all maybe ('a' = x) 'a'",
 	"find all maybe ('a' = x 'b') 'a'",
-	"find all at least 1 ('a' = x) 'b'",
-	"find all at least 1 (any = x) 'b'",
-	"find all at least 1 (any = x) fewest 'b'",
+	"find all at least 0 ('a' = x) 'b'",
+	"find all at least 0 (any = x) 'b'",
+	"find all at least 0 (any = x) fewest 'b'",
 	"find all at most 2 ('a' = x 'b') 'a'",
 	"find all (at least 1 'a') = x 'b'",
 	"find all (at least 1 any) = x 'b'",
@@ -30,9 +30,9 @@ var c02Shapes = []string{
 	"find all {'a' = x} = s",
 	"find all {any = x 'b'} = s s",
 	"find all {('a' = x 'b') or 'a'} = s 'c'",
-	"find all {'a' = x} = s or 'b'",
+	"find all ({'a' = x} = s) or 'b'",
 	"find all ({'a' = x 'b'} = s) or ('a' 'c')",
-	"find all at least 1 (('a' = x 'b') or ('a' = y)) 'c'",
+	"find all at least 0 (('a' = x 'b') or ('a' = y)) 'c'",
 	"find all ((any = x 'b') or (any any)) = y",
 	"find all any = x (x or 'b')",
 	"find all any = x at least 1 x",
